@@ -56,7 +56,11 @@ def rust_struct(name, d, cf):
     out.append("pub struct %s {" % name)
     for i, f in enumerate(d["fields"]):
         base = f["ty"]
-        ty = {"req": base, "opt": "Option<%s>" % base, "vec": "Vec<%s>" % base}[f["card"]]
+        # (the same types under the other names Rust has for them: how a field's type is written does not change its layout)
+        k = (i + len(name)) % 5
+        opt = ["Option", "Option", "std::option::Option", "core::option::Option", "::std::option::Option"][k]
+        vec = ["Vec", "Vec", "std::vec::Vec", "::std::vec::Vec", "Vec"][k]
+        ty = {"req": base, "opt": "%s<%s>" % (opt, base), "vec": "%s<%s>" % (vec, base)}[f["card"]]
         if f["attr"] == "tlv":
             attr = "#[zvt_tlv(tag = 0x%x%s)]" % (f["tag"], "" if f["enc"] in ("Le", "Text", "Struct") else ", encoding = " + ENC_RS[f["enc"]])
         else:
